@@ -226,7 +226,7 @@ func (m *MonC16) OnEvent(w *World, rec *StepRec) []*Violation {
 			if msg.GetTo() != f {
 				continue
 			}
-			if msg.GetType() == pb.MsgSnap {
+			if msg.GetType() == pb.MsgSnap && !rec.ManualSnap {
 				sawSnap = true
 				m.own()
 				m.snap[key] = msg.GetSnapshot().GetMetadata().GetIndex()
